@@ -12,6 +12,7 @@ outcome.
 """
 import copy
 import json
+import os
 
 import yaml
 from hypothesis import strategies as st
@@ -23,6 +24,8 @@ from yv import c11world as W
 from yv import models
 from yv.common import Harness, canon
 from yv.sched import Deadlock, Sched
+
+ROOT = os.path.dirname(os.path.dirname(os.path.dirname(os.path.abspath(__file__))))
 
 ID = 'C11'
 RULE = ('A Hypothesis rule-based state machine draws histories of up to 25 '
@@ -116,8 +119,11 @@ class World:
         self.ctx.count('step_' + k)
         if k == 'make_load':
             _, fid, mi, ti = st_
-            m = self.model(mi)
-            fn = yatiml.load_function(m.ty(W.DOC_TYPES[mi][ti]), *m.registered)
+            if mi == W.PARTIAL:
+                fn = W.partial_load_function(self.model(W.PARTIAL_OF), ti)
+            else:
+                m = self.model(mi)
+                fn = yatiml.load_function(m.ty(W.DOC_TYPES[mi][ti]), *m.registered)
             self.funcs[fid] = ('load', mi, ti, fn)
         elif k == 'make_dumps':
             _, fid, mi, dk = st_
@@ -129,7 +135,17 @@ class World:
             if call is None:
                 self.history.pop()
                 return
+            via_path = k == 'load' and len(st_) > 3
+            fds0 = _count_fds() if via_path else 0
             got = W.outcome(call[1])
+            if via_path:
+                fds1 = _count_fds()
+                self.ctx.count('load_from_path')
+                if fds1 > fds0:
+                    self.ctx.finding('resources', 'file_left_open_after_load_from_path',
+                                     'after %s returned (%s) the process has %d more open file '
+                                     'descriptor(s) than before the call\n  %s'
+                                     % (st_, got[0], fds1 - fds0, self.describe()))
             self.compare(st_, call[0], got)
         elif k == 'probe':
             self.check_globals(force_probe=True)
@@ -159,6 +175,17 @@ class World:
         if k == 'load':
             _, mi, ti, fn = f
             di = st_[2]
+            if len(st_) > 3:
+                import pathlib
+                d = os.path.join(ROOT, '.scratch', 'c11_%d' % os.getpid())
+                os.makedirs(d, exist_ok=True)
+                path = os.path.join(d, 'doc_%d.yaml' % di)
+                try:
+                    with open(path, 'wb') as f:
+                        f.write(W.DOCS[di].encode('utf-8'))
+                except UnicodeEncodeError:
+                    return None
+                return (['load', mi, ti, di], lambda: canon(fn(pathlib.Path(path))))
             return (['load', mi, ti, di], lambda: canon(fn(W.DOCS[di])))
         _, mi, dk, fn = f
         vm, vi, oi = st_[2], st_[3], st_[4]
@@ -225,12 +252,19 @@ class World:
         names = set()
         overlapping = False
         for f in self.funcs.values():
-            for c in W.MODELS[f[1]]['classes']:
+            for c in W.MODELS[W.PARTIAL_OF if f[1] == W.PARTIAL else f[1]]['classes']:
                 if c['name'] in names:
                     overlapping = True
                 names.add(c['name'])
         mis = {f[1] for f in self.funcs.values()}
         return (len(self.funcs) >= 2 and len(mis) >= 2 and self.failed_before_success) or self.switches >= 10
+
+
+def _count_fds():
+    try:
+        return len(os.listdir('/proc/self/fd'))
+    except OSError:
+        return 0
 
 
 # ---------------------------------------------------------------------------
@@ -247,7 +281,7 @@ def make_machine(ctx):
             super().__init__()
             self.w = World(ctx)
 
-        @rule(fid=st.sampled_from(FIDS), mi=st.integers(0, 3), ti=st.integers(0, 3))
+        @rule(fid=st.sampled_from(FIDS), mi=st.sampled_from([0, 1, 2, 2, 3, 4, 4]), ti=st.integers(0, 3))
         def make_load(self, fid, mi, ti):
             self.w.step(['make_load', fid, mi, ti])
 
@@ -274,7 +308,10 @@ def make_machine(ctx):
         @precondition(lambda self: any(f[0] == 'load' for f in self.w.funcs.values()))
         @rule(data=st.data(), di=st.integers(0, len(W.DOCS) - 1))
         def call_load_again(self, data, di):
-            self.call_load(data, di)
+            # the same document from a file: same result, and the call must not
+            # keep the file open (a descriptor held between calls is state)
+            fids = sorted(k for k, f in self.w.funcs.items() if f[0] == 'load')
+            self.w.step(['load', data.draw(st.sampled_from(fids)), di, 'path'])
 
         @precondition(lambda self: len(self.w.history) % 7 == 6)
         @rule()
@@ -324,3 +361,7 @@ def phases(tier):
 
 def teardown():
     _oracle.close()
+    import glob
+    import shutil
+    for d in glob.glob(os.path.join(ROOT, '.scratch', 'c11_*')):
+        shutil.rmtree(d, ignore_errors=True)
